@@ -13,6 +13,7 @@ import vlib
 from vlib import Check, ToolError
 
 ADDRS = {"a1": ("10.1.0.1", 80), "a2": ("10.1.0.2", 80), "a3": ("10.1.0.3", 80), "a4": ("10.1.0.4", 80)}
+HADDRS = {"h1": ("10.2.0.1", 80), "h2": ("10.2.0.2", 80), "h3": ("10.2.0.3", 80)}
 SVC = "svc15"
 ENV = {"RNACOS_NAMING_HEALTH_TIMEOUT_SECOND": "3600", "RNACOS_NAMING_INSTANCE_TIMEOUT_SECOND": "7200"}
 SETTLE_S = 29.0     # two anti-entropy intervals (12 s, checked every 3 s) + batch delay
@@ -92,6 +93,15 @@ class Scenario:
             del self.reg_by[a]
         self.ev(ev="dereg", c=c, a=a)
 
+    def hreg(self, via, a, dereg=False):
+        """an instance registered / deregistered over HTTP through node `via` (NamingRoute: applied by the owner node)"""
+        ip, port = HADDRS[a]
+        r = self.c.nodes[via].call({"op": "ns_http_deregister" if dereg else "ns_http_register", "service": SVC + "-" + a, "ip": ip, "port": port})
+        self.ops.append({"op": "hdereg" if dereg else "hreg", "via": via, "a": a, "res": r.get("res")})
+        if r.get("res") != "ok":
+            raise ToolError("HTTP-style %s through node %d failed: %s" % ("deregister" if dereg else "register", via, r))
+        self.ev(ev="hdereg" if dereg else "hreg", a=a)
+
     def close(self, c):
         self.clients[c].close()
         self.closed.add(c)
@@ -125,12 +135,14 @@ class Scenario:
             d = nd.call({"op": "ns_dump"})
             if d.get("res") != "ok":
                 raise ToolError("ns_dump failed on node %d: %s" % (n, d))
-            view = []
+            view, hview = [], []
+            hnames = {"%s:%d" % v: k for k, v in HADDRS.items()}
             for i in d["instances"]:
-                if i["service"] != SVC:
-                    continue
-                view.append({"a": names.get("%s:%s" % (i["ip"], i["port"]), "?"), "c": ids.get(i["client"], "?" + str(i["client"]))})
-            out[n] = sorted(view, key=lambda x: x["a"])
+                if i["service"] == SVC:
+                    view.append({"a": names.get("%s:%s" % (i["ip"], i["port"]), "?"), "c": ids.get(i["client"], "?" + str(i["client"]))})
+                elif i["service"].startswith(SVC + "-"):
+                    hview.append(hnames.get("%s:%s" % (i["ip"], i["port"]), "?"))
+            out[n] = (sorted(view, key=lambda x: x["a"]), sorted(hview))
         return out
 
     def settle_and_read(self, rounds=3):
@@ -141,8 +153,8 @@ class Scenario:
         for r in range(rounds):
             if r:
                 time.sleep(13.0)
-            for n, view in self.views().items():
-                self.ev(ev="read", n=n, view=view)
+            for n, (view, hview) in self.views().items():
+                self.ev(ev="read", n=n, view=view, hview=hview)
 
     def free_addr(self, c):
         """addresses connection c may register: free ones and those held through the same node (model limit)"""
@@ -167,6 +179,9 @@ class Scenario:
                 self.reg("c2", "a2")
                 self.reg("c3", "a3")
                 self.reg("c4", "a4")
+                self.hreg(1, "h1")
+                self.hreg(2, "h2")
+                self.hreg(3, "h3")
                 time.sleep(2.0)
                 self.die(2)
                 time.sleep(DEAD_S)
@@ -175,29 +190,37 @@ class Scenario:
                 self.settle_and_read(rounds=2)
             else:
                 self.open_clients([self.rng.choice([1, 2, 3]) for _ in range(5)])
-                dead = None
-                for _ in range(12):
+                dead, noticed, hregd = None, False, set()
+                for _ in range(14):
                     live = [c for c in self.clients if c not in self.closed]
                     x = self.rng.random()
-                    if x < 0.5 and live:
+                    if x < 0.4 and live:
                         c = self.rng.choice(live)
                         fa = self.free_addr(c)
                         if fa:
                             self.reg(c, self.rng.choice(fa))
-                    elif x < 0.7 and live:
+                    elif x < 0.55 and live:
                         mine = [(a, c) for a, c in self.reg_by.items() if c in live]
                         if mine:
                             a, c = self.rng.choice(mine)
                             self.dereg(c, a)
+                    elif x < 0.78 and (dead is None or noticed):
+                        # HTTP-style operations only while every node the route may pick is really there
+                        h = self.rng.choice(sorted(HADDRS))
+                        via = self.rng.choice([n for n in (1, 2, 3) if n != dead])
+                        self.hreg(via, h, dereg=(h in hregd and self.rng.random() < 0.5))
+                        hregd = (hregd - {h}) if self.ops[-1]["op"] == "hdereg" else (hregd | {h})
                     elif x < 0.85 and len(live) > 2:
                         self.close(self.rng.choice(live))
                     elif x < 0.93 and dead is None:
                         dead = self.rng.choice([1, 2, 3])
                         self.die(dead)
-                        time.sleep(DEAD_S if self.rng.random() < 0.5 else 1.0)
+                        noticed = self.rng.random() < 0.5
+                        time.sleep(DEAD_S if noticed else 1.0)
                     elif dead is not None:
                         self.start(dead)
                         dead = None
+                        time.sleep(3.0)
                     time.sleep(self.rng.choice([0.0, 0.3, 0.8]))
                 if dead is not None and self.rng.random() < 0.5:
                     time.sleep(DEAD_S)
@@ -310,9 +333,11 @@ def run(tier):
         "connection closes by killing its client process, a node dies by SIGKILL (its clients die with it)",
         "'quiescence' = no operations for 29 s (two anti-entropy intervals + batch delay; a dead node is given 21 s to be "
         "noticed); then every live node is read once per further 13 s interval and must keep returning the same instances",
-        "gRPC (connection-owned) ephemeral instances of one service; an address is registered through one node at a time "
-        "(take-over between connections of the same node is exercised); HTTP-registered instances and heartbeat expiry are "
-        "not part of these scenarios (expiry is C13's subject; the time-outs are set to hours)",
+        "gRPC (connection-owned) ephemeral instances of one service - an address is registered through one node at a time, "
+        "take-over between connections of the same node is exercised - and HTTP-registered instances of three more "
+        "services (routed to the owner node by NamingRoute; issued only while no unnoticed dead node could be picked as "
+        "owner); heartbeat expiry is C13's subject (the time-outs are set to hours); HTTP instances are specified at "
+        "contract level only (the set registered and not deregistered), the message-level model covers the gRPC side",
         "compared per node: address and owning connection of every instance (health, enabled and weight are constant here)",
     ]
     shutil.rmtree(sc_dir, ignore_errors=True)
